@@ -30,6 +30,16 @@ def handleC15 : List String → String
     match fromHex buf, hexList sock, n.toNat? with
     | some buf, some sock, some n => showHexList (Conn.reads n ⟨buf, sock⟩)
     | _, _, _ => "bad-op"
+  -- consecutive openings of one transport object: `flags` has one `1`/`0` per opening (the caller
+  -- read after it / nobody read), `ops` the bytes of each negotiation phase
+  | ["history", flags, ops] =>
+    match hexList ops with
+    | some ops =>
+      let fl := flags.toList.map (· == '1')
+      if fl.length != ops.length then "bad-op" else
+      let os := (ops.zip fl).map fun (b, d) => ({ bytes := b, drained := d } : Opening)
+      " ".intercalate ((history [] os).map fun s => s!"{toHex s.ctrl}/{toHex s.data}/{showHexList s.replies}")
+    | none => "bad-op"
   | _ => "bad-op"
 
 end Driver.C15
